@@ -1,5 +1,6 @@
 """pyvc.execute -- statement-level symbolic execution and per-function VC generation."""
 import ast
+import os
 import z3
 from .types import *
 from .expr import *
@@ -906,7 +907,10 @@ def make_engine(modname, repo=None):
     from . import extract
     m = importlib.import_module('contracts.' + modname)
     cons = {q: Contract(q, d, m.ALIASES) for q, d in m.C.items()}
-    eng = Executor(cons, m.ALIASES, getattr(m, 'MACROS', {}), getattr(m, 'GLOBALS', {}))
+    globs = dict(getattr(m, 'GLOBALS', {}))
+    if getattr(m, 'GLOBALS_FROM', None):
+        globs.update(dump_globals(m.GLOBALS_FROM, repo or extract.REPO))
+    eng = Executor(cons, m.ALIASES, getattr(m, 'MACROS', {}), globs)
     eng.exc_parents = getattr(m, 'EXC_PARENTS', {})
     from . import types as _t
     _t.RECORDS.clear()
@@ -931,3 +935,35 @@ def make_engine(modname, repo=None):
         shas[q] = sha
         eng.sigs[q] = extract.signature_defaults(node)
     return eng, cons, nodes, shas, errors
+
+
+def dump_globals(spec, repo):
+    """ground facts: module-level constants of the REAL modules, dumped by the repo's interpreter on every run.
+    spec: {module: [names]}; floats travel as hex so that they arrive exactly"""
+    import json
+    import subprocess
+    code = ('import json,sys,warnings\nwarnings.simplefilter("ignore")\nimport importlib\nout={}\n'
+            'def enc(v):\n'
+            '    if isinstance(v,float): return {"f":v.hex()}\n'
+            '    if isinstance(v,dict): return {"d":{str(k):enc(x) for k,x in v.items()}}\n'
+            '    if isinstance(v,(list,tuple,set,frozenset)): return {"l":[enc(x) for x in sorted(v)]}\n'
+            '    return {"v":v}\n'
+            'spec=json.loads(sys.argv[1])\n'
+            'for mod,names in spec.items():\n'
+            '    m=importlib.import_module(mod)\n'
+            '    for n in names: out[n]=enc(getattr(m,n))\n'
+            'print(json.dumps(out))')
+    env = dict(os.environ, PYTHONPATH=os.path.join(repo, 'src'), PYTHONDONTWRITEBYTECODE='1')
+    p = subprocess.run(['/venv/bin/python', '-c', code, json.dumps(spec)], capture_output=True, text=True, env=env)
+    if p.returncode != 0:
+        raise RuntimeError('cannot dump constants from the real modules: ' + p.stderr[-400:])
+
+    def dec(x):
+        if 'f' in x:
+            return float.fromhex(x['f'])
+        if 'd' in x:
+            return {k: dec(v) for k, v in x['d'].items()}
+        if 'l' in x:
+            return [dec(v) for v in x['l']]
+        return x['v']
+    return {k: dec(v) for k, v in json.loads(p.stdout.strip().split('\n')[-1]).items()}
